@@ -131,6 +131,18 @@ theorem perm_unseen_label_raises {α : Type} [DecidableEq α] (y : List (Option 
   obtain ⟨fwd, h1, _, _, _, hmem⟩ := fit_fitted y lin hlin
   exact ⟨fwd, h1, plain_unseen_raises fwd q u hu (fun h => hnot ((hmem u).mp h))⟩
 
+/-- `get_fct_inv` is an involution on fitted transformers: for every target list and every drawn permutation,
+the transformer returned by `get_fct_inv().get_fct_inv()` holds the dictionary `fit` produced, entry by entry and in
+the same order (so "the one returned by get_fct_inv" can itself be reversed, as TransformedTargetClassifier2 does
+when it is cloned and refitted). -/
+theorem get_fct_inv_involutive {α : Type} [DecidableEq α] (y : List (Option α)) (lin : List Nat)
+    (hlin : lin.Perm (List.range (number y).length)) :
+    ∃ fwd, fit y lin = .ok fwd ∧ getFctInv (getFctInv fwd) = fwd := by
+  obtain ⟨fwd, h1, hf, _, _, _⟩ := fit_fitted y lin hlin
+  refine ⟨fwd, h1, ?_⟩
+  rw [getFctInv_eq fwd hf.values_nodup,
+    getFctInv_eq (fwd.map swap) (by rw [swap_values]; exact hf.keys_nodup), fitted_swap_swap]
+
 /-! ### `closest=True`: the nearest-neighbour fallback of the label branch
 
 `_find_closest` (scikit-learn's kd-tree over `list(permutation_)`) is a parameter `near` of the
